@@ -7,21 +7,20 @@ From Oak Require Import Spec.LegacySpec Spec.LegacySpec2 Proofs.LegacyProofs Pro
 From Coq Require Import List String Ascii ZArith Bool Arith Lia.
 Import ListNotations.
 
-(* the nodes popped by detach(a) lie at or below a *)
-Lemma D_below s D a :
-  Rank s -> (forall d, In d D -> d = a \/ kid_of s D d) -> forall d, In d D -> d <= a.
+(* the nodes popped by detach(a) lie at or below a: a node that a does not hold is not popped *)
+Lemma D_not_above s D a x :
+  Rank s -> (forall d, In d D -> d = a \/ kid_of s D d) -> ~ reach s a x -> ~ In x D.
 Proof.
-  intros HK LA.
-  assert (Hmax : forall d, In d D -> d <= list_max D).
-  { intros d Hd. assert (Hf := proj1 (list_max_le D (list_max D)) (le_n _)).
-    rewrite Forall_forall in Hf. apply Hf; exact Hd. }
-  assert (Hall : forall n d, list_max D - d <= n -> In d D -> d <= a).
-  { induction n; intros d Hle Hd.
-    - destruct (LA d Hd) as [->|[d' [Hd' Hk]]]; [lia|].
-      apply HK in Hk. assert (Hm := Hmax d' Hd'). lia.
-    - destruct (LA d Hd) as [->|[d' [Hd' Hk]]]; [lia|].
-      apply HK in Hk. assert (Hm := Hmax d' Hd'). assert (d' <= a) by (apply IHn; [lia | exact Hd']). lia. }
-  intros d Hd. apply (Hall (list_max D) d); [lia | exact Hd].
+  intros HK LA Hn. apply (dlink_not_above s [a] D x HK).
+  - intros d Hd. destruct (LA d Hd) as [->|Hk]; [left; left; reflexivity | right; exact Hk].
+  - intros r [<-|[]]. exact Hn.
+Qed.
+(* nor is it the child of a popped node *)
+Lemma C_not_above s D a x :
+  Rank s -> (forall d, In d D -> d = a \/ kid_of s D d) -> ~ reach s a x -> ~ kid_of s D x.
+Proof.
+  intros HK LA Hn [d [Hd Hk]]. apply (D_not_above s D a d HK LA); [|exact Hd].
+  intros Hr. apply Hn. eapply reach_trans; [exact Hr | eapply reach_step; [exact Hk | apply reach_refl]].
 Qed.
 
 Section Remove.
@@ -49,20 +48,20 @@ Section Remove.
     assert (Hedge : In (a, f, None) (skids_wf s p)).
     { destruct (HL a Hla Haa) as [_ [Hs _]]. destruct (Hs p Hpa) as [f' [Hf' Hin]].
       rewrite Hpf in Hf'. inversion Hf'; subst f'. rewrite Hpi in Hin. exact Hin. }
-    assert (Hap : a < p) by (apply HK; eapply edge_kid; exact Hedge).
+    assert (Hap : ~ reach s a p) by (apply (proj2 HK); eapply edge_kid; exact Hedge).
+    assert (Hapne : a <> p) by (intros ->; apply Hap; apply reach_refl).
     assert (Hassoc : assoc f (c_fs (cellD s p)) = Some (FOne (Some a))).
     { apply edge_assoc_one; [exact Hnames | exact Hedge]. }
     (* everything popped or cleared lies at or below a, hence strictly below p *)
-    assert (HDle : forall d, In d D -> d <= a) by (apply (D_below s); assumption).
-    assert (HCle : forall x, In x C -> x < a).
-    { intros x Hx. destruct (LC x Hx) as [d [Hd Hk]]. apply HK in Hk. assert (A := HDle d Hd). lia. }
+    assert (HpD : ~ In p D) by (apply (D_not_above s D a p HK LA Hap)).
+    assert (HpC : ~ In p C) by (intros Hc; apply (C_not_above s D a p HK LA Hap); apply LC; exact Hc).
     (* cells *)
     assert (Hlen2 : List.length (heap s2) = List.length (heap s)) by exact (pf_len _ _ PF).
     assert (Hc3 : forall x, x <> p -> cellD s3 x = cellD s2 x).
     { intros x Hx. unfold s3. rewrite cellD_upd. destruct (Nat.eqb p x) eqn:E; [|reflexivity].
       apply Nat.eqb_eq in E. congruence. }
     assert (Hp2 : cellD s2 p = cellD s p).
-    { apply (dr_same _ _ _ _ R). intros [Hin|Hin]; [lia|]. apply HCle in Hin. lia. }
+    { apply (dr_same _ _ _ _ R). intros [Hin|Hin]; [congruence | contradiction]. }
     assert (Hp3 : cellD s3 p = with_fs (set_key f (FOne None) (c_fs (cellD s p))) (cellD s p)).
     { unfold s3. rewrite cellD_upd, Nat.eqb_refl. unfold live in Hlp. rewrite Hlen2.
       apply Nat.ltb_lt in Hlp. rewrite Hlp. simpl. rewrite Hp2. reflexivity. }
@@ -121,7 +120,6 @@ Section Remove.
       destruct (dr_either _ _ _ _ R x) as [E2|E2]; rewrite E2 in Hp; [|simpl in Hp; discriminate].
       split; [exact E2|]. unfold parent. destruct (c_pid (cellD s x)); [|discriminate].
       rewrite Hreg3 in Hp. eapply dr_sub; eassumption. }
-    assert (HpD : ~ In p D) by (intros Hd; apply HDle in Hd; lia).
     assert (Hp3att : attached s3 p) by (apply Hatt3'; assumption).
     assert (Hp3live : live s3 p) by (unfold live in *; rewrite Hlen3; exact Hlp).
     split; [|split; [exact Hp3live | split; [exact Hp3att|]]].
@@ -129,7 +127,7 @@ Section Remove.
       split; [|split; [|split]].
       + intros i x Hx. rewrite Hreg3 in Hx. apply (dr_sub _ _ _ _ R) in Hx. destruct (HR _ _ Hx) as [Hl Hi].
         split; [unfold live in *; rewrite Hlen3; exact Hl | rewrite Hid3; exact Hi].
-      + intros x k Hk. apply HK. apply Hsk3; exact Hk.
+      + apply (rank_sub_kids s s3); [rewrite Hlen3; apply le_n | exact Hsk3 | exact HK].
       + intros x Hx. destruct (Hslots x) as [E _]. rewrite E in Hx.
         destruct (dr_either _ _ _ _ R x) as [E2|E2]; rewrite E2 in Hx; [|simpl in Hx; congruence].
         destruct (HP x Hx) as [Hxa Hxp]. destruct (parent s x) as [q|] eqn:Hq; [|congruence].
@@ -177,8 +175,8 @@ Section Remove.
       + intros y Hy. assert (Hyp : y <> p) by (intros ->; apply Hnr; apply (Hreach_p x p Hy eq_refl)).
         destruct (Hslots y) as [_ [_ [_ [_ [Ecls _]]]]]. rewrite Ecls, (pf_cls _ _ PF).
         rewrite (Hfs3 y Hyp). split; reflexivity.
-      + unfold fuel_of. rewrite Hlen3. unfold live in Hlx0. lia.
-      + unfold fuel_of. unfold live in Hlx0. lia.
+      + unfold fuel_of. rewrite Hlen3. lia.
+      + unfold fuel_of. lia.
   Qed.
 
   (* replace_with(None) of an attached node in an optional single-child field of its parent *)
